@@ -146,6 +146,9 @@ func icList(r *rng, kinds []string, withIds bool) string {
 		if k == "q" {
 			k = fmt.Sprintf("q%d", r.intn(9))
 		}
+		if k == "s" { // selective probes have their own id range
+			k = fmt.Sprintf("s%d", 20+r.intn(9))
+		}
 		l = append(l, k)
 	}
 	return strings.Join(l, ",")
@@ -154,15 +157,26 @@ func icList(r *rng, kinds []string, withIds bool) string {
 func genIcept(r *rng, n int, tier string) []string {
 	var out []string
 	srcs := genParseSources(r, n)
-	for _, s := range srcs {
+	for i, s := range srcs {
 		var items []string
 		if m := modeCfg(r); m != "-" {
 			items = append(items, m)
 		}
-		if si := icList(r, []string{"p", "q", "q"}, true); si != "" {
+		if i%6 == 5 {
+			// nesting-rich programs with selective probes only: consecutive context
+			// queries under different stacks of equal depth
+			_, txt, _, _ := c16Case(r.next() % (1 << 40))
+			items = append(items, fmt.Sprintf("si:s%d", 20+r.intn(7)))
+			if r.chance(1, 2) {
+				items = append(items, fmt.Sprintf("ei:s%d", 20+r.intn(7)))
+			}
+			out = append(out, strings.Join(items, ";")+" "+hx(txt))
+			continue
+		}
+		if si := icList(r, []string{"p", "q", "q", "s"}, true); si != "" {
 			items = append(items, "si:"+si)
 		}
-		if ei := icList(r, []string{"p", "q", "q", "r"}, true); ei != "" {
+		if ei := icList(r, []string{"p", "q", "q", "r", "s"}, true); ei != "" {
 			items = append(items, "ei:"+ei)
 		}
 		if ti := icList(r, []string{"p", "q"}, true); ti != "" {
@@ -211,12 +225,32 @@ func genReg(r *rng, n int, tier string) []string {
 	for i := 0; i < n; i++ {
 		var ti, inf, pre, post []string
 		var infS, preS, postS []string
+		useNames := r.chance(1, 2)
+		ids := map[string]int{}
+		var names []string
 		for k, sym := range regSyms {
 			ty := 1000 + k
 			if !r.chance(2, 3) {
 				continue
 			}
-			ti = append(ti, fmt.Sprintf("g%s=%d", hx(sym), ty))
+			if useNames {
+				// ids through lexer.Builder.RegisterTokenType: first-seen order from 1000, a
+				// repeated name answers the id it already has
+				name := fmt.Sprintf("op%d", k)
+				if r.chance(1, 6) && len(names) > 0 {
+					name = pick(r, names)
+				}
+				if id, ok := ids[name]; ok {
+					ty = id
+				} else {
+					ty = 1000 + len(names)
+					ids[name] = ty
+					names = append(names, name)
+				}
+				ti = append(ti, fmt.Sprintf("n%s=%s", hx(sym), hx(name)))
+			} else {
+				ti = append(ti, fmt.Sprintf("g%s=%d", hx(sym), ty))
+			}
 			switch r.intn(4) {
 			case 0, 1:
 				inf = append(inf, fmt.Sprintf("%d=%d", ty, 1+r.intn(13)))
@@ -238,6 +272,12 @@ func genReg(r *rng, n int, tier string) []string {
 		}
 		if r.chance(1, 8) {
 			post = append(post, fmt.Sprint(pick(r, []int{10, 11, 12, 23}))) // built-in token as postfix: accepted
+		}
+		if r.chance(1, 6) && len(post) > 0 {
+			post = append(post, post[0]) // repeat: refused
+		}
+		if r.chance(1, 6) && len(pre) > 0 {
+			pre = append(pre, pre[r.intn(len(pre))]) // repeat: refused
 		}
 		if r.chance(1, 8) {
 			pre = append(pre, fmt.Sprint(pick(r, []int{12, 13, 10}))) // * / + as prefix: accepted
@@ -273,7 +313,8 @@ func genReg(r *rng, n int, tier string) []string {
 
 func runParse(line string) string {
 	c := parsePcase(line)
-	out, _, _, b := parseObservable(c, false)
+	// half of the cases configure the builder through Builder.Install
+	out, _, _, b := parseObservable(c, len(line)%2 == 1)
 	regs := make([]string, len(b.regErrs))
 	for i, e := range b.regErrs {
 		regs[i] = b01(e)
